@@ -548,7 +548,43 @@ pub fn cmd_wire_cross(a: &HashMap<String, String>) -> i32 {
             }
         }
     }
-    println!("{}", json!({"events": n}));
+    // durations are dense: every time field is swept millisecond by millisecond over a window (a conversion that is right at
+    // round values and boundaries can still be one wire unit off in between)
+    let dense: u64 = a.get("dense").and_then(|s| s.parse().ok()).unwrap_or(600);
+    let mut swept = 0usize;
+    for (kind, recs) in by_kind.iter() {
+        let base = recs[0].clone();
+        let keys: Vec<String> = match &base {
+            Value::Object(m) => m.iter().filter(|(_, x)| x.get("ms").is_some() && x.get("ns").is_some()).map(|(k, _)| k.clone()).collect(),
+            _ => vec![],
+        };
+        for k in keys {
+            let start: u64 = [0u64, 250, rng.gen_range(1000..60_000), rng.gen_range(60_000..600_000)][swept % 4];
+            swept += 1;
+            for ms in start..start + dense {
+                let mut rec = base.clone();
+                rec[&k] = json!({"ms": [ms % 65536, (ms / 65536) % 65536, 0, 0], "ns": 0});
+                let p = match insim::Packet::from_abs(&json!({"kind": kind, "rec": rec})) {
+                    Ok(p) => p,
+                    Err(_) => continue,
+                };
+                let mode = if ms % 2 == 0 { "C" } else { "U" };
+                let (res, bytes) = match try_encode(mode, &p) {
+                    Ok(b) => ("ok", b),
+                    Err(e) if e == "panic" => ("panic", vec![]),
+                    Err(_) => ("err", vec![]),
+                };
+                // ... and what the decoder makes of that frame's time field (Trace_Wire: the duration the wire value stands for)
+                let back = match (res, crate::frames::standalone(mode, &bytes)) {
+                    ("ok", (crate::frames::Verdict::Pkt { .. }, Some(p2))) => p2.to_abs()["rec"][&k].clone(),
+                    _ => json!({"ms": [0, 0, 0, 0], "ns": -1}),
+                };
+                let _ = writeln!(w, "{}", json!({"ev": "Enc", "kind": kind, "mode": mode, "rec": rec, "res": res, "bytes": bytes, "durkey": k, "back_dur": back}));
+                n += 1;
+            }
+        }
+    }
+    println!("{}", json!({"events": n, "duration_fields_swept": swept}));
     0
 }
 
